@@ -149,6 +149,34 @@ Definition source_tree_single (s : source) : list (nat * source) := [(1, s)].
 Definition min_source_id (tree : list (nat * source)) : nat :=
   match map fst tree with [] => 1 | k :: ks => fold_left Nat.min ks k end.
 
+(* ---- SourceTree as it is: two HashMaps.  SourceTree::new inserts, for the file at index i with path p and content c,
+   sources[p] := c and source_ids[(i + 1) as u16] := p: a later file with the same path replaces the content, and the id
+   wraps at 65536 (a later file can take the id of an earlier one).  `composed` resolves a span's source id through
+   source_ids and then sources.  Paths are abstract keys (N). *)
+Definition u16 (z : N) : N := N.modulo z 65536.
+Fixpoint tree_entries (k : N) (files : list (N * source)) : list (N * N) :=     (* (id, path), insertion order *)
+  match files with
+  | [] => []
+  | (p, _) :: t => (u16 (k + 1), p) :: tree_entries (k + 1) t
+  end.
+(* HashMap::insert in sequence, then get: the LAST entry with that key *)
+Fixpoint last_assoc {A : Type} (key : N) (l : list (N * A)) : option A :=
+  match l with
+  | [] => None
+  | (k, v) :: t => match last_assoc key t with
+                   | Some x => Some x
+                   | None => if N.eqb k key then Some v else None
+                   end
+  end.
+Definition tree_path (files : list (N * source)) (id : N) : option N := last_assoc id (tree_entries 0 files).
+Definition tree_content (files : list (N * source)) (p : N) : option source := last_assoc p files.
+Definition tree_source (files : list (N * source)) (id : N) : option source :=
+  match tree_path files id with Some p => tree_content files p | None => None end.
+(* the same as an association list for composed_one (every entry already resolved, so the first match is the answer) *)
+Definition tree_of_files (files : list (N * source)) : list (nat * source) :=
+  flat_map (fun e => match tree_source files (fst e) with Some s => [(N.to_nat (fst e), s)] | None => [] end)
+           (tree_entries 0 files).
+
 (* a lexer error as the caller sees it: convert_lexer_error with the id of the file, then `composed` against a
    tree in which that id names the file (parse_source + prql_to_pl_tree's composed; prql_to_tokens).
    Result: (span', location, found). *)
